@@ -16,6 +16,7 @@ import (
 	"path/filepath"
 	"strings"
 	"testing"
+	"unicode/utf8"
 
 	"github.com/tucats/ego/internal/util/javascript"
 	"github.com/tucats/ego/internal/verifh/vh"
@@ -269,7 +270,7 @@ func (g *cssGen) tok(sep int, text string) {
 	if sep == sepVal {
 		sep = sepReq
 
-		if g.chance(3) {
+		if g.chance(3) || (text == "(" && g.chance(12)) {
 			if c := g.bare(text); c != "" {
 				g.feat["comment-as-only-separator"] = true
 				g.b.WriteString(c)
@@ -312,8 +313,18 @@ func (g *cssGen) tok(sep int, text string) {
 		}
 	}
 
-	if g.b.Len() == 0 && sep != sepReq {
-		s = strings.TrimLeft(s, "")
+	// control and Unicode "spaces" that CSS does NOT treat as white space (vertical tab, NEL, NBSP, LS, ideographic space):
+	// put directly between two tokens, or next to real white space. They are a delim token (VT) or name code points.
+	if g.chance(2) {
+		pseudo := g.pick("\x0b", "\u0085", "\u00a0", "\u2028", "\u3000", "\x0b\x0b")
+		g.feat["non-css-whitespace-between-tokens"] = true
+
+		switch sep {
+		case sepOpt:
+			s = pseudo
+		case sepReq:
+			s = g.pick(s+pseudo, pseudo+s, s+pseudo+s)
+		}
 	}
 
 	g.b.WriteString(s)
@@ -345,7 +356,29 @@ func (g *cssGen) bare(next string) string {
 	return g.comment()
 }
 
+// uni returns an identifier with multi-byte UTF-8 characters. The set includes characters whose encoding contains the bytes
+// 0x85 and 0xA0 (à = C3 A0, Å = C3 85, † = E2 80 A0, NBSP = C2 A0, NEL = C2 85, … = E2 80 A6): a byte-wise white-space test
+// that knows Latin-1 or Unicode spaces would cut them in two. To CSS all of them are ordinary name code points.
+func (g *cssGen) uni() string {
+	g.feat["non-ascii-identifier"] = true
+
+	return g.pick("à", "Å", "†x", "na\u00a0me", "x\u0085y", "日本語", "😀", "naïve", "Ünï-côde", "Ω1", "ça", "pàÅ†", "…more", "élément-à", "\u3000wide", "\u2028ls", "ｆｕｌｌ", "-à", "--Å", "_†")
+}
+
+// maybeUni replaces an ASCII name by a non-ASCII one now and then.
+func (g *cssGen) maybeUni(name string) string {
+	if g.chance(12) {
+		return g.uni()
+	}
+
+	return name
+}
+
 func (g *cssGen) ident() string {
+	if g.chance(15) {
+		return g.uni()
+	}
+
 	id := g.pick("a", "div", "span", "li", "nav", "btn", "card", "row", "x1", "main-header", "_under", "-moz-thing", "--custom", "É", "b", "i")
 	if g.chance(3) {
 		g.feat["escaped-ident"] = true
@@ -368,7 +401,7 @@ func (g *cssGen) compound() {
 	}
 
 	if g.chance(60) {
-		g.tok(sepOpt, g.pick("a", "div", "span", "li", "ul", "*", "h1", "input", "td", "body", "button"))
+		g.tok(sepOpt, g.maybeUni(g.pick("a", "div", "span", "li", "ul", "*", "h1", "input", "td", "body", "button")))
 		first = false
 	}
 
@@ -384,12 +417,12 @@ func (g *cssGen) compound() {
 			g.tok(sepNone, g.ident())
 			g.feat["class"] = true
 		case 2:
-			g.tok(sep(), "#"+g.pick("id", "main", "x", "a1", "f00"))
+			g.tok(sep(), "#"+g.maybeUni(g.pick("id", "main", "x", "a1", "f00")))
 			g.feat["id"] = true
 		case 3:
 			g.feat["attribute"] = true
 			g.tok(sep(), "[")
-			g.tok(sepOpt, g.pick("type", "href", "data-x", "lang", "class"))
+			g.tok(sepOpt, g.maybeUni(g.pick("type", "href", "data-x", "lang", "class")))
 
 			if g.chance(75) {
 				g.tok(sepOpt, g.pick("=", "~=", "|=", "^=", "$=", "*="))
@@ -398,7 +431,7 @@ func (g *cssGen) compound() {
 					g.tok(sepOpt, g.pick(`"text"`, `'a b'`, `"x]y"`, `"it's"`, `'q"q'`, `"a\"b"`, `"sp  ace"`, `"/*nc*/"`, `"a;}b"`))
 					g.feat["attribute-quoted"] = true
 				} else {
-					g.tok(sepOpt, g.pick("text", "en", "x1", "_b"))
+					g.tok(sepOpt, g.maybeUni(g.pick("text", "en", "x1", "_b")))
 					g.feat["attribute-unquoted"] = true
 				}
 
@@ -582,7 +615,7 @@ func (g *cssGen) component(sep int, depth int) {
 		g.tok(sep, g.pick("rgb(", "rgba(", "hsl(", "translate(", "linear-gradient(", "var(", "attr("))
 
 		if g.last == "var(" {
-			g.tok(sepOpt, g.pick("--x", "--main-color", "--a-b"))
+			g.tok(sepOpt, g.pick("--x", "--main-color", "--a-b", "--größe", "--🎨", "--Å", "--à\u00a0b"))
 
 			if g.chance(40) {
 				g.tok(sepOpt, ",")
@@ -618,7 +651,7 @@ func (g *cssGen) component(sep int, depth int) {
 func (g *cssGen) declaration() {
 	if g.chance(12) {
 		g.feat["custom-property"] = true
-		g.tok(sepOpt, g.pick("--x", "--main-color", "--a-b", "--Empty"))
+		g.tok(sepOpt, g.pick("--x", "--main-color", "--a-b", "--Empty", "--größe", "--🎨", "--Å", "--à\u00a0b", "--†"))
 		g.tok(sepOpt, ":")
 
 		switch g.rng.Intn(4) {
@@ -635,6 +668,25 @@ func (g *cssGen) declaration() {
 
 			for k := g.rng.Intn(3); k > 0; k-- {
 				g.component(sepVal, 0)
+			}
+		}
+
+		return
+	}
+
+	if g.chance(10) {
+		// unquoted family / animation names: a list of identifiers, several of them non-ASCII
+		g.feat["unquoted-names-value"] = true
+		g.tok(sepOpt, g.pick("font-family", "animation-name", "font", "animation"))
+		g.tok(sepOpt, ":")
+		g.tok(sepOpt, g.uni())
+
+		for k := g.rng.Intn(3); k > 0; k-- {
+			if g.chance(50) {
+				g.tok(sepOpt, ",")
+				g.tok(sepOpt, g.maybeUni(g.pick("serif", "Helvetica", "spin")))
+			} else {
+				g.tok(sepVal, g.maybeUni(g.pick("Sans", "Neue", "x")))
 			}
 		}
 
@@ -704,7 +756,7 @@ func (g *cssGen) mediaQuery() {
 			g.tok(sepReq, g.pick("and", "and", "or"))
 		}
 
-		g.tok(sepReq, "(")
+		g.tok(sepVal, "(") // now and then only a comment separates the keyword from "("
 		g.tok(sepOpt, g.pick("min-width", "max-width", "orientation", "prefers-color-scheme", "-webkit-min-device-pixel-ratio"))
 
 		if g.chance(85) {
@@ -763,7 +815,7 @@ func (g *cssGen) atRule(depth int) {
 			g.tok(sepReq, "not")
 		}
 
-		g.tok(sepReq, "(")
+		g.tok(sepVal, "(") // now and then only a comment separates the keyword from "("
 		g.tok(sepOpt, g.pick("display", "position", "--x"))
 		g.tok(sepOpt, ":")
 		g.tok(sepOpt, g.pick("grid", "sticky", "0"))
@@ -783,7 +835,7 @@ func (g *cssGen) atRule(depth int) {
 	case x == 6:
 		g.feat["at-keyframes"] = true
 		g.tok(sepOpt, g.pick("@keyframes", "@-webkit-keyframes"))
-		g.tok(sepReq, g.pick("spin", "fade-in", "x"))
+		g.tok(sepReq, g.maybeUni(g.pick("spin", "fade-in", "x")))
 		g.tok(sepOpt, "{")
 
 		for _, sel := range []string{g.pick("from", "0%"), g.pick("50%", "33.3%"), g.pick("to", "100%")} {
@@ -842,7 +894,8 @@ func TestC34(t *testing.T) {
 	r := vh.New("C34", "css-tokens")
 	r.Rule = "stylesheets generated from a selector/declaration/at-rule grammar (combinators, pseudo-classes/elements/functions, quoted and unquoted attribute values, " +
 		"@media/@supports/@import/@charset/@font-face/@page/@keyframes, calc()/min()/var()/rgb(), quoted and unquoted url(), strings with escapes and line continuation, " +
-		"!important, custom properties) with optional/required whitespace, CR/LF/FF and comments put between any two tokens; plus the shipped dashboard CSS; " +
+		"!important, custom properties; non-ASCII identifiers in every name position incl. characters encoded with the bytes 0x85/0xA0, and VT/NEL/NBSP/LS between tokens) " +
+		"with optional/required whitespace, CR/LF/FF and comments put between any two tokens; plus the shipped dashboard CSS; " +
 		"distinct = distinct source text; non-trivial = at least one rule and four grammar features"
 	r.Assume("the monitor's tokenizer implements CSS Syntax Module Level 3 §4 (checked against hand-written cases in TestC34Tokenizer)")
 
@@ -856,6 +909,15 @@ func TestC34(t *testing.T) {
 
 		for f := range feat {
 			r.Count("feature:"+f, 1)
+		}
+
+		if utf8.ValidString(src) {
+			r.Count("utf8.valid-inputs", 1)
+
+			if !utf8.ValidString(out) {
+				r.Violate(vh.Violation{Key: "invalid-utf8-output", Desc: origin + ": the input is valid UTF-8, the minified output is not", Case: map[string]any{"css": src},
+					Expected: "valid UTF-8", Observed: map[string]any{"minified": vh.Trunc(out, 2000)}})
+			}
 		}
 
 		if v := cssCompare(src, out); v != nil {
